@@ -212,9 +212,9 @@ func runHist(spec string, massive bool) string {
 			var w bytes.Buffer
 			var err error
 			if f[0] == "o" {
-				err = gtree.OutputFromMarkdown(&w, strings.NewReader(unhex(f[9])), opts...)
+				err = gtree.OutputFromMarkdown(&w, mkReader(unhex(f[9])), opts...)
 			} else {
-				err = gtree.Output(&w, strings.NewReader(unhex(f[9])), opts...)
+				err = gtree.Output(&w, mkReader(unhex(f[9])), opts...)
 			}
 			outs = append(outs, classify(err, -1)+" "+chunksOf(f[1], f[2] == "1", w.Bytes()))
 		case "w", "wd":
@@ -241,9 +241,9 @@ func runHist(spec string, massive bool) string {
 			}
 			var err error
 			if f[0] == "w" {
-				err = gtree.WalkFromMarkdown(strings.NewReader(unhex(f[6])), cb, opts...)
+				err = gtree.WalkFromMarkdown(mkReader(unhex(f[6])), cb, opts...)
 			} else {
-				err = gtree.Walk(strings.NewReader(unhex(f[6])), cb, opts...)
+				err = gtree.Walk(mkReader(unhex(f[6])), cb, opts...)
 			}
 			outs = append(outs, classify(err, fail)+" "+visitsStr(vs))
 		default:
